@@ -104,20 +104,30 @@ theorem rowFields_ok (f : CsvFmt) (d : Nat) (pf : List Tok) (r : Row) (afs : Lis
     obtain ⟨i, _, rfl⟩ := hs
     exact numField_ok _ hsep _ (intStr_ne_nil _) (intStr_numChar _)
 
+/-- the data line of an observation -/
+def rowLine (f : CsvFmt) (geo : Bool) (pf : List Tok) (r : Row) (afs : List Int) : Str :=
+  joinChar f.sep (rowFields f (floatFmt geo).2 pf r afs)
+
+/-- the observation as the reader returns it -/
+def expRow (f : CsvFmt) (geo : Bool) (pf : List Tok) (r : Row) : RRow :=
+  ⟨(r.x.toInt, (floatFmt geo).2), (r.y.toInt, (floatFmt geo).2),
+    if f.idU = -1 then (0, 0) else (r.z.toInt, (floatFmt geo).2),
+    if f.idT = -1 then epoch else project pf r.t⟩
+
 /-- **T2 (data line)**: for a bijective column layout and a separator that is not a number character,
 the line written for an observation is read back as that observation: coordinates equal to the
 printed decimals, the timestamp reduced to the fields of the format. -/
-theorem row_roundtrip (f : CsvFmt) (geo : Bool) (pf : List Tok) (naf : Nat) (r : Row) (afs : List Int)
+theorem row_roundtrip_line (f : CsvFmt) (geo : Bool) (pf : List Tok) (naf : Nat) (r : Row) (afs : List Int)
     (hv : ValidIds f) (hsep : numChar f.sep = false) (hnl : f.sep ≠ '\n')
     (htime : f.idT ≠ -1 → TimeOK pf f.sep ∧ Fits r.t)
     (hnd : decTrunc (r.x.toInt, (floatFmt geo).2) ≠ noData ∧ decTrunc (r.y.toInt, (floatFmt geo).2) ≠ noData) :
-    ∃ line, writeRow f geo pf (orderList f naf) r afs = .ok line ∧
-      '\n' ∉ line ∧ strip line = line ∧ (∃ c cs, line = c :: cs ∧ c ≠ '#') ∧
-      readRow f pf line = .ok ⟨(r.x.toInt, (floatFmt geo).2), (r.y.toInt, (floatFmt geo).2),
-        if f.idU = -1 then (0, 0) else (r.z.toInt, (floatFmt geo).2),
-        if f.idT = -1 then epoch else project pf r.t⟩ := by
+    writeRow f geo pf (orderList f naf) r afs = .ok (rowLine f geo pf r afs) ∧
+      '\n' ∉ rowLine f geo pf r afs ∧ strip (rowLine f geo pf r afs) = rowLine f geo pf r afs ∧
+      (∃ c cs, rowLine f geo pf r afs = c :: cs ∧ c ≠ '#') ∧
+      readRow f pf (rowLine f geo pf r afs) = .ok (expRow f geo pf r) := by
   have htime' : f.idT ≠ -1 → TimeOK pf f.sep := fun h => (htime h).1
-  refine ⟨_, writeRow_eq f geo pf naf r afs hv htime', ?_⟩
+  unfold rowLine expRow
+  refine ⟨writeRow_eq f geo pf naf r afs hv htime', ?_⟩
   generalize hd : (floatFmt geo).2 = d at *
   have hok := rowFields_ok f d pf r afs hv hsep htime'
   have hne : rowFields f d pf r afs ≠ [] := by
@@ -167,6 +177,17 @@ theorem row_roundtrip (f : CsvFmt) (geo : Bool) (pf : List Tok) (naf : Nat) (r :
             simp only [ne_eq, decide_not, Bool.not_eq_eq_eq_not, Bool.not_true, decide_eq_false_iff_not]
             intro e; subst e; exact this hc
           rw [hq, readTimestamp_printTime pf hok'.1.lossless r.t hok'.2, applyCodes_epoch pf r.t hok'.1.lossless.1]
+
+theorem row_roundtrip (f : CsvFmt) (geo : Bool) (pf : List Tok) (naf : Nat) (r : Row) (afs : List Int)
+    (hv : ValidIds f) (hsep : numChar f.sep = false) (hnl : f.sep ≠ '\n')
+    (htime : f.idT ≠ -1 → TimeOK pf f.sep ∧ Fits r.t)
+    (hnd : decTrunc (r.x.toInt, (floatFmt geo).2) ≠ noData ∧ decTrunc (r.y.toInt, (floatFmt geo).2) ≠ noData) :
+    ∃ line, writeRow f geo pf (orderList f naf) r afs = .ok line ∧
+      '\n' ∉ line ∧ strip line = line ∧ (∃ c cs, line = c :: cs ∧ c ≠ '#') ∧
+      readRow f pf line = .ok ⟨(r.x.toInt, (floatFmt geo).2), (r.y.toInt, (floatFmt geo).2),
+        if f.idU = -1 then (0, 0) else (r.z.toInt, (floatFmt geo).2),
+        if f.idT = -1 then epoch else project pf r.t⟩ :=
+  ⟨_, row_roundtrip_line f geo pf naf r afs hv hsep hnl htime hnd⟩
 
 /-! ### decidable forms of the hypotheses (for concrete formats) -/
 
